@@ -17,8 +17,9 @@ EXHAUSTIVE = {"quick": False, "thorough": False}
 def hx(s):
     return "x" + s.encode("latin1").hex()
 
-def req(method, path, headers=(), body=None, declared=True):
-    """returns a list of tokens ('x..' / 'g..') for one request"""
+def req(method, path, headers=(), body=None, declared=True, pad=0):
+    """returns a list of tokens ('x..' / 'g..') for one request; pad = width the Content-Length numeral is
+    zero-padded to (1*DIGIT allows any number of leading zeros)"""
     head = "%s %s HTTP/1.1\r\n" % (method, path)
     for k, v in headers:
         head += "%s: %s\r\n" % (k, v)
@@ -26,7 +27,7 @@ def req(method, path, headers=(), body=None, declared=True):
     if body is not None:
         blen = body[0]
         if declared:
-            head += "Content-Length: %d\r\n" % blen
+            head += "Content-Length: %s\r\n" % str(blen).rjust(pad, "0")
     head += "\r\n"
     parts.append(hx(head))
     if body is not None and body[0] > 0:
@@ -50,7 +51,7 @@ def gen_sequence(rng, small, nreq):
             if ln == 0:
                 toks += req("POST", beh, body=(0, seed))
             else:
-                toks += req(rng.choice(["POST", "PUT"]), beh, body=(ln, seed))
+                toks += req(rng.choice(["POST", "PUT"]), beh, body=(ln, seed), pad=rng.choice([0, 0, 0, 2, 19, 20, 21, 25, 40]))
         elif r < 0.8:
             ln = small + rng.choice([1, 2, 10])
             m = rng.choice([0, ln - 1, ln, ln + 1, 10**6])
@@ -98,6 +99,12 @@ def gen(rng, tier):
             pad = rng.randint(7900, 8100)
             seq = "+".join(req("GET", "/n200")) * 1 + "+" + "+".join(req("GET", "/n201", headers=[("X-Pad", "q" * pad)])) + "+" + "+".join(req("GET", "/n200"))
         cases.append("D %d ok %s" % (small if kind != 1 else 5000, seq))
+    # well-formed requests with zero-padded Content-Length numerals of 19 .. 40 characters between ordinary ones: each
+    # reaches the handler with its body and the pipeline goes on
+    for w in (2, 19, 20, 21, 22, 30, 40):
+        seq = "+".join(req("GET", "/n200") + req("POST", "/n201", body=(3, 7), pad=w) + req("PUT", "/n200", body=(0, 1), pad=w) + req("GET", "/n404"))
+        cases.append("D 100 ok %s" % seq)
+        cases.append("S 100 ok 0 0 %s" % seq)
     # responses whose body source fails after the head was sent: alone, after earlier answers, with pipelined followers
     # ... and whose file is LONGER than declared (/fl<k>): exactly the declared bytes go out, the connection carries on
     for beh in ("/fs0", "/fs3", "/fs9", "/fm", "/fs10", "/fl1", "/fl12", "/fl70000"):
